@@ -137,7 +137,9 @@ type Check struct {
 	NeedsBinary    bool
 	// CrashIsViolation: a dying worker / watchdog expiry refutes the property (C12 only)
 	CrashIsViolation bool
-	Explanation      string
+	// RaceSliceCases: thorough tier only - the first N cases are repeated under a -race (+checkptr) build of the worker
+	RaceSliceCases int
+	Explanation    string
 }
 
 var Registry = map[string]*Check{}
